@@ -53,3 +53,65 @@ def splitFirst (c : Char) : List Char → List Char × Option (List Char)
     else let (a, b) := splitFirst c xs; (x :: a, b)
 
 end PromVerif.Py
+
+namespace PromVerif.Py
+
+abbrev Str := List Char
+
+/-- `a < b` for Python str (lexicographic by code point) -/
+def strLt : Str → Str → Bool
+  | [], [] => false
+  | [], _ :: _ => true
+  | _ :: _, [] => false
+  | a :: as, b :: bs => if a.toNat < b.toNat then true else if b.toNat < a.toNat then false else strLt as bs
+
+/-- insert into a list sorted by key (stable: after equal keys) -/
+def insertByKey {β : Type} (kv : Str × β) : List (Str × β) → List (Str × β)
+  | [] => [kv]
+  | x :: xs => if strLt kv.1 x.1 then kv :: x :: xs else x :: insertByKey kv xs
+
+/-- `sorted(d.items())` for a dict with str keys (keys unique, so values are never compared) -/
+def sortByKey {β : Type} (l : List (Str × β)) : List (Str × β) :=
+  l.foldl (fun acc kv => insertByKey kv acc) []
+
+/-- `sep.join(parts)` -/
+def joinStr (sep : Str) : List Str → Str
+  | [] => []
+  | [x] => x
+  | x :: xs => x ++ sep ++ joinStr sep xs
+
+/-- `s.replace(old, new)` for a single-character `old` -/
+def replaceChar (old : Char) (new : Str) (s : Str) : Str :=
+  s.flatMap (fun c => if c = old then new else [c])
+
+/-- `s.endswith(suffix)` -/
+def endsWith (suffix s : Str) : Bool := suffix.reverse.isPrefixOf s.reverse
+
+/-- `sub in s` -/
+def isInfix (sub : Str) : Str → Bool
+  | [] => sub.isEmpty
+  | c :: cs => sub.isPrefixOf (c :: cs) || isInfix sub cs
+
+/-- `str(n)` for an int -/
+def intStr (n : Int) : Str :=
+  match n with
+  | .ofNat k => decDigits k
+  | .negSucc k => '-' :: decDigits (k + 1)
+
+/-- Python's `str.strip()` whitespace (`str.isspace`): the code points CPython 3.12 treats as space -/
+def isPySpace (c : Char) : Bool :=
+  let n := c.toNat
+  (9 ≤ n && n ≤ 13) || (28 ≤ n && n ≤ 32) || n = 0x85 || n = 0xA0 || n = 0x1680 ||
+  (0x2000 ≤ n && n ≤ 0x200A) || n = 0x2028 || n = 0x2029 || n = 0x202F || n = 0x205F || n = 0x3000
+
+/-- `string.whitespace` = ' \t\n\r\x0b\x0c' -/
+def isAsciiSpace (c : Char) : Bool :=
+  let n := c.toNat
+  n = 32 || (9 ≤ n && n ≤ 13)
+
+/-- `s.strip()` -/
+def strip (s : Str) : Str := stripSet isPySpace s
+def lstrip (s : Str) : Str := lstripSet isPySpace s
+def rstrip (s : Str) : Str := rstripSet isPySpace s
+
+end PromVerif.Py
